@@ -105,7 +105,7 @@ def run(ck):
                      f"tunnel send trace rejected at event {l}: {ev} (plan={plan[:8]} auto_reconnect={ar} concurrent={conc})",
                      {"plan": plan, "auto_reconnect": ar, "nsend": ns, "concurrent": conc, "trace": t[:200], "rejected_at": l})
     muts = []
-    for t in traces[:400]:
+    for t in [t for i, t in enumerate(traces[:400]) if i not in res.bad]:
         ks = [k for k, e in enumerate(t) if e["ev"] == "rx_ack" and e["st"] == 0]
         rets = [k for k, e in enumerate(t) if e["ev"] == "send_ret" and e["out"] == "ok"]
         if ks and rets and ks[0] < rets[0] and sum(1 for k in ks if k < rets[0]) == 1 and len(muts) < 80:
